@@ -167,6 +167,21 @@ theorem moves_pollSleep {c0 c : Ctx} (s : Sleep) (k : String) (h : Moves c0 c) :
     exact hg.fin k _ ((sleep_poll_ready s c.tid c.now).mp hr) true
   · exact hg
 
+theorem moves_timeoutStep {c0 : Ctx} (s : Sleep) (r : Option Fut × Ctx) (h1 : Moves c0 r.2) :
+    Moves c0 (timeoutStep s r).2 := by
+  obtain ⟨re, c1⟩ := r
+  cases re with
+  | none =>
+    simp only [timeoutStep]
+    exact ((h1.emit (okOps_nil _)).emit (sleep_drop_ok _ _)).obs _
+  | some e' =>
+    simp only [timeoutStep]
+    have h2 := h1.emit (timeout_poll_ok false s c1.tid c1.now)
+    split
+    · rename_i v hv
+      exact ((h2.emit (dropFut_ok _ _)).emit (sleep_drop_ok _ _)).fin _ _ (timeout_poll_elapsed hv) true
+    · exact h2
+
 /-- **frame specification of one poll of any script term** -/
 theorem moves_poll (f : Fut) : ∀ {c0 c : Ctx}, Moves c0 c → Moves c0 (poll f c).2 := by
   induction f with
@@ -180,35 +195,10 @@ theorem moves_poll (f : Fut) : ∀ {c0 c : Ctx}, Moves c0 c → Moves c0 (poll f
   | sleeping s => intro c0 c h; exact moves_pollSleep _ _ h
   | timeout d e ih =>
     intro c0 c h
-    simp only [poll]
-    have h0 := h.upd { c with nextId := c.nextId + 1 } rfl rfl rfl rfl rfl rfl (Nat.le_succ _)
-    have h1 := ih h0
-    split
-    · rename_i c1 heq
-      rw [heq] at h1
-      exact ((h1.emit (okOps_nil _)).emit (sleep_drop_ok _ _)).obs _
-    · rename_i e' c1 heq
-      rw [heq] at h1
-      have h2 := h1.emit (timeout_poll_ok false { id := c.nextId, deadline := c.now + d } c1.tid c1.now)
-      split
-      · rename_i v hv
-        exact ((h2.emit (dropFut_ok _ _)).emit (sleep_drop_ok _ _)).fin _ _ (timeout_poll_elapsed hv) true
-      · exact h2
+    exact moves_timeoutStep _ _ (ih (h.upd { c with nextId := c.nextId + 1 } rfl rfl rfl rfl rfl rfl (Nat.le_succ _)))
   | timeoutRun s e ih =>
     intro c0 c h
-    simp only [poll]
-    have h1 := ih h
-    split
-    · rename_i c1 heq
-      rw [heq] at h1
-      exact ((h1.emit (okOps_nil _)).emit (sleep_drop_ok _ _)).obs _
-    · rename_i e' c1 heq
-      rw [heq] at h1
-      have h2 := h1.emit (timeout_poll_ok false s c1.tid c1.now)
-      split
-      · rename_i v hv
-        exact ((h2.emit (dropFut_ok _ _)).emit (sleep_drop_ok _ _)).fin _ _ (timeout_poll_elapsed hv) true
-      · exact h2
+    exact moves_timeoutStep _ _ (ih h)
   | select a b iha ihb =>
     intro c0 c h
     simp only [poll]
